@@ -11,6 +11,7 @@ import OFV.Proofs.C07Pauli
 import OFV.Proofs.C07Fermi
 import OFV.Proofs.C07Dual
 import OFV.Proofs.C07BCH
+import OFV.Proofs.C07Ops
 
 namespace OFV.C07
 open OFV OFV.Spec OFV.Spec.C07 OFV.Model OFV.Model.C07 OFV.Proofs.C07 OFV.Proofs.C07F
@@ -277,5 +278,70 @@ theorem bch_split_tree_leaves (n : Nat) (h : 1 ≤ n) : leaves (splitTree n 0 n)
   rw [splitTree_leaves n 0 n h (Nat.le_refl _), List.range_eq_range']
 
 example : splitTree 3 0 3 = .node (.leaf 0) (.node (.leaf 1) (.leaf 2)) := rfl
+
+/-! ### operator level: `commutator`, `anticommutator` as dictionaries -/
+
+/-- `commutator_def`: for every term functional `φ` (e.g. `φ τ = ⟨u|τ|s⟩`), the dictionary returned by
+`commutator(A, B)` (`result = A * B; result -= B * A`) denotes `⟦A·B⟧_φ - ⟦B·A⟧_φ`, where a product
+denotes the bilinear extension of the simplified term product; hypothesis: the exact regime of the
+in-place subtraction (no non-zero coefficient below `EQ_TOLERANCE` is pruned). -/
+theorem commutator_def (tol : Rat) (cls : Cls) (φ : List (Nat × Nat) → GQ) (A B : List (List (Nat × Nat) × GQ))
+    (h : ExactAdd tol (mulOp cls A B) ((mulOp cls B A).map fun e => (e.1, -e.2))) :
+    den φ (commutator tol cls A B) = bil (prodF cls φ) A B + -(bil (prodF cls φ) B A) :=
+  den_commutator tol cls φ A B h
+
+/-- `anticommutator_def` -/
+theorem anticommutator_def (tol : Rat) (cls : Cls) (φ : List (Nat × Nat) → GQ) (A B : List (List (Nat × Nat) × GQ))
+    (h : ExactAdd tol (mulOp cls A B) (mulOp cls B A)) :
+    den φ (anticommutator tol cls A B) = bil (prodF cls φ) A B + bil (prodF cls φ) B A :=
+  den_anticommutator tol cls φ A B h
+
+example : commutator Generated.eqTolerance .fermion [([(0, 1)], 1)] [([(0, 0)], 1)] =
+    [([(0, 1), (0, 0)], 1), ([(0, 0), (0, 1)], -1)] := by decide +kernel
+
+/-- operands whose terms commute pairwise (under `φ`) have a commutator that denotes 0 -/
+theorem commutator_zero_of_termwise (tol : Rat) (cls : Cls) (φ : List (Nat × Nat) → GQ)
+    (A B : List (List (Nat × Nat) × GQ))
+    (h : ExactAdd tol (mulOp cls A B) ((mulOp cls B A).map fun e => (e.1, -e.2)))
+    (hc : ∀ l ∈ A, ∀ r ∈ B, prodF cls φ l.1 r.1 = prodF cls φ r.1 l.1) :
+    den φ (commutator tol cls A B) = 0 :=
+  den_commutator_zero tol cls φ A B h hc
+
+/-- the shortcut and the generic path agree: when `trivially_commutes_dual_basis(a, b)` answers `True`,
+every matrix element `⟨u| commutator(c_a·a, c_b·b) |s⟩` of the Model's `commutator` is 0 -/
+theorem commutator_zero_of_trivially_commutes_dual (tol : Rat) (a b : List (Nat × Nat)) (ca cb : GQ)
+    (ha : DualTerm a) (hb : DualTerm b) (ht : triviallyCommutesDualBasis a b = true)
+    (h : ExactAdd tol (mulOp .fermion [(a, ca)] [(b, cb)])
+      ((mulOp .fermion [(b, cb)] [(a, ca)]).map fun e => (e.1, -e.2))) (s u : Nat) :
+    den (fun τ => GQ.ofInt (ampF τ s u)) (commutator tol .fermion [(a, ca)] [(b, cb)]) = 0 := by
+  apply den_commutator_zero tol .fermion _ _ _ h
+  intro l hl r hr
+  simp only [List.mem_singleton] at hl hr
+  subst hl; subst hr
+  have hz := (trivially_commutes_dual_basis_sound a b ha hb ht).2 s u
+  have : ampF (a ++ b) s u = ampF (b ++ a) s u := by omega
+  simp only [prodF, simplify, this]
+
+/-! ### `hermitian_conjugated` for Boson / Quad operators: the formal involution -/
+
+/-- BosonOperator branch.  The adjoint on ladder words is the formal involution `b_j ↔ b†_j`
+extended as an anti-homomorphism (`hcTermF`: reverse and flip; it maps generators to their adjoints
+and reverses products); the key stored by the code, `sorted(hcTermF t)`, denotes the same operator
+as `hcTermF t` on every monomial of the polynomial representation (stable sort; different modes
+commute).  (That the formal involution is the Hilbert-space adjoint is not formalised.) -/
+theorem hc_boson_term_sound (t t₁ t₂ : List (Nat × Nat)) (j : Nat) (e : Spec.Mono) :
+    Spec.actTermWith Spec.actB (sortF (hcTermF t)) e = Spec.actTermWith Spec.actB (hcTermF t) e ∧
+    hcTermF (t₁ ++ t₂) = hcTermF t₂ ++ hcTermF t₁ ∧
+    hcTermF [(j, 1)] = [(j, 0)] ∧ hcTermF [(j, 0)] = [(j, 1)] :=
+  ⟨hcBoson_key_sound t e, hcTermF_append t₁ t₂, rfl, rfl⟩
+
+/-- QuadOperator branch: `q_j`, `p_j` are self-adjoint, so the involution is word reversal; the stored
+key `sorted(reversed(t))` denotes the reversed word for every `ħ` and every monomial. -/
+theorem hc_quad_term_sound (hbar : GQ) (t t₁ t₂ : List (Nat × Nat)) (e : Spec.Mono) :
+    Spec.actTermWith (Spec.actQuad hbar) (sortF t.reverse) e = Spec.actTermWith (Spec.actQuad hbar) t.reverse e ∧
+    (t₁ ++ t₂).reverse = t₂.reverse ++ t₁.reverse :=
+  ⟨hcQuad_key_sound hbar t e, List.reverse_append⟩
+
+example : hcBoson [([(0, 1), (1, 0), (0, 0)], ⟨1, 2⟩)] = [([(0, 1), (0, 0), (1, 1)], ⟨1, -2⟩)] := by decide +kernel
 
 end OFV.C07
